@@ -331,6 +331,15 @@ def run_ctor_case(spec, keys):
     h = FT.synth_hourly(tz=tz, days=40, seed=rng, ghi=True)
     h.iloc[10, 1] = 0.0
     probes.append(("hourly-baseline-frame", lambda x: em.HourlyBaselineData(x, is_electricity_data=True), h))
+    h_ns = h.copy()
+    h_ns.index = h_ns.index.as_unit("ns")                      # an index that is in nanoseconds already (parquet, a database driver): nothing forces a new frame
+    h_ns.iloc[25, 1] = 0.0
+    probes.append(("hourly-baseline-frame-ns-index", lambda x: em.HourlyBaselineData(x, is_electricity_data=True), h_ns))
+    probes.append(("hourly-reporting-frame-ns-index", lambda x: em.HourlyReportingData(x, is_electricity_data=True), h_ns.copy()))
+    d_ns = d.copy()
+    d_ns.index = d_ns.index.as_unit("ns")
+    d_ns.iloc[9, 1] = 0.0
+    probes.append(("daily-baseline-frame-ns-index", lambda x: em.DailyBaselineData(x, is_electricity_data=True), d_ns))
     probes.append(("hourly-reporting-frame-no-usage", lambda x: em.HourlyReportingData(x, is_electricity_data=True), h.drop(columns=["observed"])))
     probes.append(("daily-from-hourly-frame", lambda x: em.DailyBaselineData(x, is_electricity_data=True), h[["temperature", "observed"]].copy()))
     probes.append(("daily-from_series-hourly-temperature", lambda x: em.DailyBaselineData.from_series(x[0], x[1], is_electricity_data=True),
